@@ -199,6 +199,19 @@ def ensure_dir_exists(path):
                 raise
 
 
+def has_gitattribute(text, pattern, attribute):
+    """Whether the gitattributes text has a rule giving pattern the attribute.
+
+    A mere mention of the attribute (in a comment, or in a rule for
+    another pattern) does not count.
+    """
+    for line in text.splitlines():
+        parts = line.split()
+        if parts and parts[0] == pattern and attribute in parts[1:]:
+            return True
+    return False
+
+
 def locate_gitattributes(scope=None):
     """Locate the .gitattributes file
 
